@@ -126,6 +126,7 @@ type world struct {
 	deleteDepth    atomic.Int64
 	opStack        []*stackOp // ops executing on the driver goroutine, innermost last
 	helpers        sync.WaitGroup
+	helperSeq      atomic.Int64
 	deleteHelpers  sync.WaitGroup // helper writes launched inside a Delete's publication, joined before the driver's next op
 	log            []string
 }
@@ -543,7 +544,7 @@ func runScenario(t *rapid.T, s scenario) {
 						w.helpers.Add(1)
 						helperActive.Add(1)
 						done := make(chan struct{})
-						who := 9
+						who := 100 + int(w.helperSeq.Add(1)) // every helper is a writer of its own: two of them can race each other
 						if n := len(w.opStack); n > 0 && w.opStack[n-1].op.kind == "delete" && !w.isValue && strings.HasPrefix(point, "bus.send") && !lockedPoints[point] {
 							// launched from inside a Delete's publication. Delete publishes while it holds the write
 							// lock, so this write can only take effect once the Delete is over; the driver waits for it
@@ -794,7 +795,12 @@ func runScenario(t *rapid.T, s scenario) {
 				if !s.parallel && !risky {
 					// a write launched on a helper goroutine (inside a locked window) runs concurrently with the driver's writes
 					w.mu.Lock()
-					helperWrote := w.writersOf[id][9] && len(w.writersOf[id]) >= 2
+					helperWrote := false
+					for who := range w.writersOf[id] {
+						if who >= 100 {
+							helperWrote = len(w.writersOf[id]) >= 2
+						}
+					}
 					w.mu.Unlock()
 					if helperWrote {
 						sig, risky = knownReorderStress, true
